@@ -27,3 +27,13 @@ package keeper
 //@   flag havoc=ApplyMessageWithConfig,PostTxProcessing,RefundGas,ResetGasMeterAndConsumeGas,SetBlockBloomTransient,SetTxIndexTransient,SetLogSizeTransient,BloomValue
 //@   modifies state(ctx)
 //@   before[C19.at.cached] ApplyMessageWithConfig requires k.hooks == nil || arg_ctx.cell != ctx.cell
+
+// C19 (after a transaction every touched account's bank balance is the balance the EVM computed): committing an
+// account always brings its bank balance to the committed value - also when that value is zero (an account drained by
+// the transaction) - for the account's own address.
+//@ func (*Keeper).SetAccount
+//@   flag noframe
+//@   flag pure=Bytes,GetAccount,NewAccountWithAddress,SetSequence,BytesToHash,SetCodeHash,Logger,Debug,Hex
+//@   flag havoc=SetBalance,accountKeeper.SetAccount,AccountKeeper.SetAccount
+//@   ensures[C19.sa.balance] err == nil ==> defined(res_SetBalance_0)
+//@   before[C19.sa.balance]  SetBalance requires arg_addr == addr && arg_amount == account.Balance
